@@ -3,6 +3,7 @@
 package main
 
 import (
+	"runtime/debug"
 	"encoding/json"
 	"flag"
 	"fmt"
@@ -130,6 +131,9 @@ func run(def *propertyDef, id, repo, verif, tier string, seed int, list, noEvide
 	func() {
 		defer func() {
 			if r := recover(); r != nil {
+				if os.Getenv("VERIF_TRACE") != "" {
+					debug.PrintStack()
+				}
 				obs = append(obs, report.Obligation{Rule: "RUN", Key: "checker panic", Status: report.Violation, Why: fmt.Sprint(r)})
 			}
 		}()
